@@ -63,6 +63,10 @@ func (h *RetryHandler) ExecuteWithRetry(
 	maxRetries := len(endpoints)
 	attemptCount := 0
 
+	// Once any part of a response has been written to the client, failing over would
+	// splice a second backend's response onto the first, so we track it
+	tw := &responseTracker{ResponseWriter: w}
+
 	for attemptCount < maxRetries && len(availableEndpoints) > 0 {
 		if err := h.checkContextCancellation(ctx); err != nil {
 			return err
@@ -76,10 +80,15 @@ func (h *RetryHandler) ExecuteWithRetry(
 		}
 
 		attemptCount++
-		lastErr = h.executeProxyAttempt(ctx, w, r, endpoint, selector, stats, proxyFunc)
+		lastErr = h.executeProxyAttempt(ctx, tw, r, endpoint, selector, stats, proxyFunc)
 
 		if lastErr == nil {
 			return nil
+		}
+
+		if tw.started {
+			// The client already has the status line (and possibly body bytes) from this attempt
+			return lastErr
 		}
 
 		if !IsConnectionError(lastErr) {
@@ -92,6 +101,27 @@ func (h *RetryHandler) ExecuteWithRetry(
 	}
 
 	return h.buildFinalError(availableEndpoints, maxRetries, lastErr)
+}
+
+// responseTracker records whether anything has been sent to the client yet.
+// Unwrap keeps http.ResponseController (flush, deadlines) working on the wrapped writer.
+type responseTracker struct {
+	http.ResponseWriter
+	started bool
+}
+
+func (t *responseTracker) WriteHeader(statusCode int) {
+	t.started = true
+	t.ResponseWriter.WriteHeader(statusCode)
+}
+
+func (t *responseTracker) Write(b []byte) (int, error) {
+	t.started = true
+	return t.ResponseWriter.Write(b)
+}
+
+func (t *responseTracker) Unwrap() http.ResponseWriter {
+	return t.ResponseWriter
 }
 
 // preserveRequestBody reads and preserves request body for potential retries
